@@ -97,9 +97,9 @@ func (t *termer) term(v ssa.Value, d int) string {
 		com := x.Common()
 		name := ""
 		if f := com.StaticCallee(); f != nil {
-			name = f.Name()
+			name = fname(f)
 			if !t.p.InModule(f) {
-				name = pkgOfFunc(f).Pkg.Name() + "." + f.Name()
+				name = pkgOfFunc(f).Pkg.Name() + "." + fname(f)
 			}
 			if f.String() == "fmt.Sprintf" {
 				if s, ok := t.sprintf(x, d); ok {
@@ -284,7 +284,7 @@ func rowCases(p *Prog, v ssa.Value, at ssa.Instruction) (map[string]string, stri
 		}
 		for _, c := range conds {
 			cc, _ := flattenCond(c, true)
-			if call, ok := cc.(*ssa.Call); ok && call.Common().StaticCallee() != nil && call.Common().StaticCallee().Name() == "isRoot" {
+			if call, ok := cc.(*ssa.Call); ok && call.Common().StaticCallee() != nil && fname(call.Common().StaticCallee()) == "isRoot" {
 				node = call.Common().Args[0]
 			}
 		}
@@ -493,7 +493,7 @@ func ruleSIB3(w *World) []Ob {
 		scan := []*ssa.Function{fn}
 		allInstrs(fn, func(in ssa.Instruction) {
 			if c, ok := in.(*ssa.Call); ok {
-				if f := c.Common().StaticCallee(); f != nil && p.InModule(f) && f != fn && strings.Contains(recvTypeName(f), "olorize") && f.Name() != "spreadBranch" && f.Name() != "summary" && f.Name() != "write" {
+				if f := c.Common().StaticCallee(); f != nil && p.InModule(f) && f != fn && strings.Contains(recvTypeName(f), "olorize") && fname(f) != "spreadBranch" && fname(f) != "summary" && fname(f) != "write" {
 					scan = append(scan, f)
 				}
 			}
@@ -577,7 +577,7 @@ func ruleSIB3(w *World) []Ob {
 			side := "?"
 			for _, g := range guardsOf(c.Block()) {
 				cc, pol := flattenCond(g.Cond, g.Pol)
-				if call, ok := cc.(*ssa.Call); ok && call.Common().StaticCallee() != nil && call.Common().StaticCallee().Name() == "isRoot" && sameVar(call.Common().Args[0], node) {
+				if call, ok := cc.(*ssa.Call); ok && call.Common().StaticCallee() != nil && fname(call.Common().StaticCallee()) == "isRoot" && sameVar(call.Common().Args[0], node) {
 					if pol {
 						side = "root"
 					} else {
@@ -619,7 +619,7 @@ func ruleSIB3(w *World) []Ob {
 			}
 		})
 		okBase := false
-		if c, ok := base.(*ssa.Call); ok && c.Common().StaticCallee() != nil && c.Common().StaticCallee().Name() == "branch" {
+		if c, ok := base.(*ssa.Call); ok && c.Common().StaticCallee() != nil && fname(c.Common().StaticCallee()) == "branch" {
 			if prm, ok := c.Common().Args[0].(*ssa.Parameter); ok && isNodePtr(prm.Type()) {
 				okBase = true
 			}
@@ -680,7 +680,7 @@ func ruleSIB3(w *World) []Ob {
 				var node ssa.Value
 				for _, g := range guardsOf(r.Block()) {
 					cc, pol := flattenCond(g.Cond, g.Pol)
-					if call, ok := cc.(*ssa.Call); ok && call.Common().StaticCallee() != nil && call.Common().StaticCallee().Name() == "isRoot" {
+					if call, ok := cc.(*ssa.Call); ok && call.Common().StaticCallee() != nil && fname(call.Common().StaticCallee()) == "isRoot" {
 						node = call.Common().Args[0]
 						if pol {
 							side = "root"
@@ -745,7 +745,7 @@ func ruleSIB3(w *World) []Ob {
 			side := "?"
 			for _, g := range guardsOf(r.Block()) {
 				cc, pol := flattenCond(g.Cond, g.Pol)
-				if call, ok := cc.(*ssa.Call); ok && call.Common().StaticCallee() != nil && call.Common().StaticCallee().Name() == "isRoot" {
+				if call, ok := cc.(*ssa.Call); ok && call.Common().StaticCallee() != nil && fname(call.Common().StaticCallee()) == "isRoot" {
 					if pol {
 						side = "root"
 					} else {
@@ -898,7 +898,7 @@ func ruleC01SEL(w *World) []Ob {
 				continue
 			}
 			allInstrs(f, func(in ssa.Instruction) {
-				if c, ok := in.(*ssa.Call); ok && c.Common().StaticCallee() != nil && c.Common().StaticCallee().Name() == "assembleBranchIndirectly" && recvTypeName(c.Common().StaticCallee()) == spec.recv {
+				if c, ok := in.(*ssa.Call); ok && c.Common().StaticCallee() != nil && fname(c.Common().StaticCallee()) == "assembleBranchIndirectly" && recvTypeName(c.Common().StaticCallee()) == spec.recv {
 					call, fn = c, f
 				}
 			})
@@ -939,7 +939,7 @@ func ruleC01SEL(w *World) []Ob {
 					guarded := false
 					for _, g := range guardsOf(call.Block()) {
 						cc, pol := flattenCond(g.Cond, g.Pol)
-						if c2, ok := cc.(*ssa.Call); ok && !pol && c2.Common().StaticCallee() != nil && c2.Common().StaticCallee().Name() == "isRoot" && c2.Common().Args[0] == ssa.Value(ph) {
+						if c2, ok := cc.(*ssa.Call); ok && !pol && c2.Common().StaticCallee() != nil && fname(c2.Common().StaticCallee()) == "isRoot" && c2.Common().Args[0] == ssa.Value(ph) {
 							guarded = true
 						}
 					}
@@ -1026,7 +1026,7 @@ func ruleC01SEL(w *World) []Ob {
 					if _, _, isNil := nilTest(cc, true); isNil {
 						continue
 					}
-					if call, isC := cc.(*ssa.Call); isC && call.Common().StaticCallee() != nil && call.Common().StaticCallee().Name() == "isRoot" {
+					if call, isC := cc.(*ssa.Call); isC && call.Common().StaticCallee() != nil && fname(call.Common().StaticCallee()) == "isRoot" {
 						continue
 					}
 					extraGuard = describeValue(cc)
@@ -1079,12 +1079,12 @@ func ruleC01NAME(w *World) []Ob {
 	okGen := false
 	allInstrs(gen, func(in ssa.Instruction) {
 		c, ok := in.(*ssa.Call)
-		if !ok || c.Common().StaticCallee() == nil || c.Common().StaticCallee().Name() != "newNode" {
+		if !ok || c.Common().StaticCallee() == nil || fname(c.Common().StaticCallee()) != "newNode" {
 			return
 		}
 		a0, ok0 := c.Common().Args[0].(*ssa.Call)
 		a1, ok1 := c.Common().Args[1].(*ssa.Call)
-		if ok0 && ok1 && a0.Common().StaticCallee() != nil && a0.Common().StaticCallee().Name() == "Text" && a1.Common().StaticCallee() != nil && a1.Common().StaticCallee().Name() == "Hierarchy" && sameVar(a0.Common().Args[0], a1.Common().Args[0]) {
+		if ok0 && ok1 && a0.Common().StaticCallee() != nil && fname(a0.Common().StaticCallee()) == "Text" && a1.Common().StaticCallee() != nil && fname(a1.Common().StaticCallee()) == "Hierarchy" && sameVar(a0.Common().Args[0], a1.Common().Args[0]) {
 			okGen = true
 		}
 	})
@@ -1113,7 +1113,7 @@ func ruleC01NAME(w *World) []Ob {
 	parseFam := []*ssa.Function{parse}
 	allInstrs(parse, func(in ssa.Instruction) {
 		if c, ok := in.(*ssa.Call); ok {
-			if f := c.Common().StaticCallee(); f != nil && p.InModule(f) && recvTypeName(f) == "Parser" && f != sep && f.Name() != "isBlank" && f.Name() != "calculateHierarchy" {
+			if f := c.Common().StaticCallee(); f != nil && p.InModule(f) && recvTypeName(f) == "Parser" && f != sep && fname(f) != "isBlank" && fname(f) != "calculateHierarchy" {
 				parseFam = append(parseFam, f)
 			}
 		}
@@ -1240,7 +1240,7 @@ func transformerChain(v ssa.Value) ([]string, string) {
 			v = x.Common().Args[0]
 		case *ssa.Extract:
 			if c, ok := x.Tuple.(*ssa.Call); ok {
-				if f := c.Common().StaticCallee(); f != nil && f.Name() == "separateRow" {
+				if f := c.Common().StaticCallee(); f != nil && fname(f) == "separateRow" {
 					return chain, fmt.Sprintf("separateRow#%d", x.Index)
 				}
 				name := calleeFullName(c.Common())
@@ -1268,7 +1268,7 @@ func ruleSIB5(w *World) []Ob {
 	eachLibFuncDW(w, func(p *Prog, fn *ssa.Function) {
 		var gen *ssa.Call
 		allInstrs(fn, func(in ssa.Instruction) {
-			if c, ok := in.(*ssa.Call); ok && c.Common().StaticCallee() != nil && c.Common().StaticCallee().Name() == "generate" && recvTypeName(c.Common().StaticCallee()) == "nodeGenerator" {
+			if c, ok := in.(*ssa.Call); ok && c.Common().StaticCallee() != nil && fname(c.Common().StaticCallee()) == "generate" && recvTypeName(c.Common().StaticCallee()) == "nodeGenerator" {
 				gen = c
 			}
 		})
@@ -1377,7 +1377,7 @@ func ruleSIB5(w *World) []Ob {
 		// (d) root ⇒ new stack, push, record
 		var isRootCall *ssa.Call
 		for _, r := range *node.Referrers() {
-			if c, ok := r.(*ssa.Call); ok && c.Common().StaticCallee() != nil && c.Common().StaticCallee().Name() == "isRoot" {
+			if c, ok := r.(*ssa.Call); ok && c.Common().StaticCallee() != nil && fname(c.Common().StaticCallee()) == "isRoot" {
 				isRootCall = c
 			}
 		}
@@ -1404,10 +1404,10 @@ func ruleSIB5(w *World) []Ob {
 						switch x := in.(type) {
 						case *ssa.Call:
 							if f := x.Common().StaticCallee(); f != nil {
-								if f.Name() == "newStack" {
+								if fname(f) == "newStack" {
 									newStk = true
 								}
-								if f.Name() == "push" && len(x.Common().Args) == 2 && sameVar(x.Common().Args[1], node) {
+								if fname(f) == "push" && len(x.Common().Args) == 2 && sameVar(x.Common().Args[1], node) {
 									push = true
 								}
 							}
@@ -1417,7 +1417,7 @@ func ruleSIB5(w *World) []Ob {
 								}
 							}
 						case *ssa.Store:
-							if c, ok := x.Val.(*ssa.Call); ok && c.Common().StaticCallee() != nil && c.Common().StaticCallee().Name() == "newStack" {
+							if c, ok := x.Val.(*ssa.Call); ok && c.Common().StaticCallee() != nil && fname(c.Common().StaticCallee()) == "newStack" {
 								stackCell = x.Addr
 							}
 							if sameVar(x.Val, node) {
@@ -1455,7 +1455,7 @@ func ruleSIB5(w *World) []Ob {
 					hasStack = true
 				}
 			}
-			if hasNode && hasStack && c.Common().StaticCallee().Name() != "dfs" && isErrorType(c.Type()) {
+			if hasNode && hasStack && fname(c.Common().StaticCallee()) != "dfs" && isErrorType(c.Type()) {
 				helper = c
 			}
 		})
@@ -1474,10 +1474,10 @@ func ruleSIB5(w *World) []Ob {
 					hStack = hf.Params[i]
 					if ld, ok := isLoad(stripConv(a)); ok {
 						if st := initStore(ld); st != nil && nc.nonNil(st.Val, st, 0) {
-							why = "the stack handed to " + hf.Name() + " is created before the first root is seen, so its nil test can never fire"
+							why = "the stack handed to " + fname(hf) + " is created before the first root is seen, so its nil test can never fire"
 						}
 						if stackCell != nil && cellKey(ld) != cellKey(stackCell) {
-							why = hf.Name() + " is given a different stack than the one created for the current root"
+							why = fname(hf) + " is given a different stack than the one created for the current root"
 						}
 					}
 				}
@@ -1491,7 +1491,7 @@ func ruleSIB5(w *World) []Ob {
 							nilSentinel = true
 						}
 					case *ssa.Call:
-						if x.Common().StaticCallee() != nil && x.Common().StaticCallee().Name() == "dfs" && sameVar(x.Common().Args[0], hStack) && sameVar(x.Common().Args[1], hNode) {
+						if x.Common().StaticCallee() != nil && fname(x.Common().StaticCallee()) == "dfs" && sameVar(x.Common().Args[0], hStack) && sameVar(x.Common().Args[1], hNode) {
 							if failureLeadsToErrorExit(p, nc, x) == "" {
 								dfsOK = true
 							}
@@ -1500,16 +1500,16 @@ func ruleSIB5(w *World) []Ob {
 				})
 			}
 			if why == "" && !nilSentinel {
-				why = hf.Name() + " does not return errNilStack when the stack is nil"
+				why = fname(hf) + " does not return errNilStack when the stack is nil"
 			}
 			if why == "" && !dfsOK {
-				why = hf.Name() + " does not attach the node with dfs and report a failed attach"
+				why = fname(hf) + " does not attach the node with dfs and report a failed attach"
 			}
 			if why == "" {
 				why = errorExit(p, nc, helper, scan.Block())
 			}
-			add("an item before the first root is an error", why, "nil-stack test and attach in helper "+hf.Name()+", whose error ends the operation")
-			add("other items are attached to the current root's stack", why, "attach in helper "+hf.Name())
+			add("an item before the first root is an error", why, "nil-stack test and attach in helper "+fname(hf)+", whose error ends the operation")
+			add("other items are attached to the current root's stack", why, "attach in helper "+fname(hf))
 		}
 		if helper == nil {
 		// (e) nil-stack test live, yields errNilStack
@@ -1578,7 +1578,7 @@ func ruleSIB5(w *World) []Ob {
 		why = ""
 		var dfs *ssa.Call
 		allInstrs(fn, func(in ssa.Instruction) {
-			if c, ok := in.(*ssa.Call); ok && c.Common().StaticCallee() != nil && c.Common().StaticCallee().Name() == "dfs" {
+			if c, ok := in.(*ssa.Call); ok && c.Common().StaticCallee() != nil && fname(c.Common().StaticCallee()) == "dfs" {
 				dfs = c
 			}
 		})
